@@ -81,6 +81,9 @@ func writeOnce(p string, img []byte) string {
 }
 
 func c26ROMPath(c *Ctx, name string) string {
+	if name == "synthetic:mbc3-clock" {
+		return c24ROMPath(c, name)
+	}
 	if img, ok := c26Synthetic[name]; ok {
 		return writeOnce(filepath.Join(c.Scratch, strings.ReplaceAll(name, ":", "-")+".gb"), img)
 	}
@@ -313,6 +316,47 @@ func c26RunCheck(c *Ctx) func(l *explore.Local, _ struct{}, cs c26Run) *explore.
 	}
 }
 
+// c26Long: the real runFrame, frame after frame, for longer than any 32-bit count of clock cycles lasts (2^32 clock
+// cycles = 61,167 frames, 17 minutes of emulated time): every frame must advance the cartridge clock's sub-second count,
+// the sound hardware's clock and the timer's divider by exactly what the first frame advanced them.
+type c26Long struct {
+	ROM    string `json:"rom"`
+	Frames int    `json:"frames"`
+}
+
+func c26LongCheck(c *Ctx) func(l *explore.Local, _ struct{}, cs c26Long) *explore.Fail {
+	return func(l *explore.Local, _ struct{}, cs c26Long) *explore.Fail {
+		g := newGB(c26ROMPath(c, cs.ROM), false, false, true)
+		ctx := context.Background()
+		obs := func() [3]int64 {
+			return [3]int64{int64(g.parts.Mapper.VRTCGet().Ticks), int64(g.parts.Audio.VGet().Ticks), int64(g.parts.Timer.VGet().Counter)}
+		}
+		mods := [3]int64{1048576, 4194304, 65536}
+		var first [3]int64
+		for f := 0; f < cs.Frames; f++ {
+			a := obs()
+			g.frame(ctx)
+			b := obs()
+			var d [3]int64
+			for i := range d {
+				d[i] = ((b[i]-a[i])%mods[i] + mods[i]) % mods[i]
+			}
+			if f == 0 {
+				first = d
+				if d[0] != 17556 || d[1] != 70224 || d[2] != 70224%65536 {
+					return explore.Failf("a frame does not advance the hardware by 17,556 machine cycles", "%s frame 0: cartridge clock +%d, sound clock +%d, divider +%d", cs.ROM, d[0], d[1], d[2])
+				}
+			} else if d != first {
+				return explore.Failf("a later frame advances the hardware differently from the first", "%s frame %d (%.1f minutes of emulated time): cartridge clock +%d, sound clock +%d, divider +%d; frame 0: %v", cs.ROM, f, float64(f)*17556/1048576/60, d[0], d[1], d[2], first)
+			}
+			l.Trans(1)
+		}
+		l.Eval(1)
+		l.Outcome(uint64(cs.Frames))
+		return nil
+	}
+}
+
 func init() {
 	register("C26", "model_checking", func(c *Ctx) {
 		if c.R != nil {
@@ -356,6 +400,18 @@ func init() {
 				}
 				yield(c26IRQ{17556 - 300, 17557, 1})
 			}, func() struct{} { return struct{}{} }, c26IRQCheck(c))
+		long := 300
+		if c.Thorough() {
+			long = 62_000
+		}
+		explore.Product(c.R, "long-run", explore.PartOpt{Bound: fmt.Sprintf("%d frames of the real runFrame, every frame measured (thorough: past 2^32 clock cycles)", long), Domain: "synthetic guest with LCD and sound off (ROM only), and the MBC3 guest that polls the cartridge clock"},
+			func(yield func(c26Long) bool) {
+				for _, r := range []string{"synthetic:lcd-and-sound-off", "synthetic:mbc3-clock"} {
+					if !yield(c26Long{ROM: r, Frames: long}) {
+						return
+					}
+				}
+			}, func() struct{} { return struct{}{} }, c26LongCheck(c))
 		explore.Product(c.R, "run-stops-on-request", explore.PartOpt{Workers: 4, Bound: "n in 0..4", Domain: "close / cancel inside a frame / cancelled before Run x video x audio x 4 kinds of context (cancel function; ended by its deadline, Err = DeadlineExceeded; derived from a cancelled context; cancelled with a cause)"},
 			func(yield func(c26Run) bool) {
 				for _, kind := range []string{"", "deadline", "child", "cause"} {
